@@ -139,6 +139,11 @@ def oracle_archive(m, blob: bytes, rechunks=()) -> tuple[str, str] | None:
     try:
         f = m.IWAFile.from_buffer(blob)
     except Exception as e:  # noqa: BLE001
+        try:
+            U.walk_stream(U.raw_stream(blob))
+        except Exception:  # noqa: BLE001
+            # not a well-formed archive by the independent walker either (tests/data/corrupted.numbers): outside C05
+            return ("malformed", "")
         return ("decode-raises", f"from_buffer raised {type(e).__name__}: {e}")
     base = content_digest(f)
     raw = U.raw_stream(blob)
@@ -330,7 +335,8 @@ def run(ctx: Ctx) -> int:
             cuts = cut_points(rng, len(raw), rng.choice([0, 1, 2, 4, 8, 30]))
             modes = "".join(rng.choice("sc") for _ in range(len(cuts) + 1))
             res.append([cuts, safe_modes(pieces_of(raw, cuts), modes)])
-        cases.append(["syn", list(spec), {"rechunks": res, "grow": rng.choice([0, 2, 127, 70000])}])
+        nobj = sum(len(ps) for _, ps in U.walk_stream(raw))
+        cases.append(["syn", list(spec), {"rechunks": res, "grow": rng.choice([0, 2, 127, 70000] if nobj <= 20 else [0, 2, 127])}])
     for case in cases:
         try:
             r = run_oracle(m, case, cache)
@@ -338,7 +344,9 @@ def run(ctx: Ctx) -> int:
             r = ("oracle-crash", f"{type(e).__name__}: {e}")
         ctx.count("oracle")
         n_re += len(case[-1]["rechunks"])
-        if r:
+        if r and r[0] == "malformed":
+            ctx.dist("malformed_members_skipped", 1)
+        elif r:
             ctx.oracle_fail(r[0], case, r[1])
     ctx.dist("oracle_rechunkings", n_re)
     common.log(f"C05: oracle {time.time() - t1:.0f}s")
@@ -600,7 +608,8 @@ def search(ctx: Ctx, broken) -> list:
         for _ in range(12):
             cuts = cut_points(rng, len(raw), rng.choice([0, 1, 2, 4, 8, 30]))
             res.append([cuts, safe_modes(pieces_of(raw, cuts), "".join(rng.choice("sc") for _ in range(len(cuts) + 1)))])
-        cases.append(["syn", list(spec), {"rechunks": res, "grow": rng.choice([0, 1, 127, 70000])}])
+        nobj = sum(len(ps) for _, ps in U.walk_stream(raw))
+        cases.append(["syn", list(spec), {"rechunks": res, "grow": rng.choice([0, 1, 127, 70000] if nobj <= 20 else [0, 1, 127])}])
     for fx, name, blob in allm:
         raw = U.raw_stream(blob)
         res = []
@@ -613,7 +622,7 @@ def search(ctx: Ctx, broken) -> list:
             r = run_oracle(m, case, cache)
         except Exception as e:  # noqa: BLE001
             r = ("oracle-crash", f"{type(e).__name__}: {e}")
-        if r:
+        if r and r[0] != "malformed":
             found.append((r[0], case, r[1]))
             if len(found) > 10:
                 break
@@ -625,7 +634,7 @@ def replay(path: str) -> int:
     m = U.iwa()
     if d.get("kind") == "failing-input":
         r = run_oracle(m, d["case"], {})
-        if r:
+        if r and r[0] != "malformed":
             print(f"replay: still failing [{r[0]}]: {r[1]}")
             print(f"VIOLATION property=C05 replay={path}")
             return 1
